@@ -1,0 +1,13 @@
+//go:build verif
+
+package crypt
+
+// Contracts for the hvc verifier (/verif). Comment-only.
+
+// cipher.NewCTR panics unless the IV has the AES block size; aes.NewCipher
+// fails (no panic) unless the key has 16, 24 or 32 bytes.
+//@ func XCryptBytesAES256(XBytes []byte, AESKey []byte, AESIv []byte) (r []byte)
+//@   requires iv: len(AESIv) == 16 || (len(AESKey) != 16 && len(AESKey) != 24 && len(AESKey) != 32)
+//@   ensures len: (len(AESKey) == 16 || len(AESKey) == 24 || len(AESKey) == 32) ==> len(r) == len(XBytes)
+//@   ensures bad: !(len(AESKey) == 16 || len(AESKey) == 24 || len(AESKey) == 32) ==> len(r) == 0
+//@   ensures fresh: len(r) == 0 || fresh(arrayof(r))
